@@ -68,6 +68,13 @@ func c09Variants(k universe.Kind) []c09Variant {
 			{"list33-middle", func(v int) any { return c09Long(33, 20, v) }},
 			{"list65-last", func(v int) any { return c09Long(65, 64, v) }},
 			{"list-length", func(v int) any { return c09Long(16+v, -1, 0) }},
+			// a change INSIDE a member that has an id (its name), at the first / middle / last position of lists of 3..120 objects
+			{"list3-member-name", func(v int) any { return c09Objects(3, 1, v) }},
+			{"list49-member-name", func(v int) any { return c09Objects(49, 48, v) }},
+			{"list50-member-name", func(v int) any { return c09Objects(50, 0, v) }},
+			{"list51-member-name", func(v int) any { return c09Objects(51, 25, v) }},
+			{"list100-member-name", func(v int) any { return c09Objects(100, 99, v) }},
+			{"list120-member-name", func(v int) any { return c09Objects(120, 60, v) }},
 		}
 	case universe.KNLV:
 		return []c09Variant{
@@ -87,6 +94,13 @@ func c09Variants(k universe.Kind) []c09Variant {
 			{"lang-extra-entry", func(v int) any {
 				n := ap.NaturalLanguageValues{{Ref: "en", Value: ap.Content("same")}, {Ref: "fr", Value: ap.Content("pareil")}, {Ref: "de", Value: ap.Content("gleich")}}
 				return n[:v]
+			}},
+			{"lang-invalid-utf8", func(v int) any {
+				// texts are byte strings: two different ill-formed sequences are two different texts
+				return ap.NaturalLanguageValues{{Ref: "-", Value: ap.Content([]string{"", "caf\xe9", "caf\xe8"}[v])}}
+			}},
+			{"lang-invalid-utf8-run", func(v int) any {
+				return ap.NaturalLanguageValues{{Ref: "en", Value: ap.Content("one" + strings.Repeat("\x85", v) + "two")}, {Ref: "fr", Value: ap.Content("x")}}
 			}},
 			{"lang-long-tail", func(v int) any {
 				return ap.NaturalLanguageValues{{Ref: "-", Value: ap.Content(strings.Repeat("a", 1023+v*0) + fmt.Sprint(v))}}
@@ -435,6 +449,19 @@ func c09Long(n, at, v int) ap.ItemCollection {
 		} else {
 			l = append(l, ap.IRI(fmt.Sprintf("https://example.com/long/%d", i)))
 		}
+	}
+	return l
+}
+
+// c09Objects is a list of n embedded objects with pairwise distinct ids; the NAME of member `at` depends on the variant v.
+func c09Objects(n, at, v int) ap.ItemCollection {
+	l := make(ap.ItemCollection, 0, n)
+	for i := 0; i < n; i++ {
+		name := "same name"
+		if i == at {
+			name = fmt.Sprintf("name %d", v)
+		}
+		l = append(l, &ap.Object{ID: ap.IRI(fmt.Sprintf("https://example.com/members/%d", i)), Type: ap.NoteType, Name: ap.NaturalLanguageValues{{Ref: "-", Value: ap.Content(name)}}})
 	}
 	return l
 }
